@@ -186,6 +186,7 @@ pub fn property() -> Property {
         rule: "1..10 distinct relative paths (0..4 directories deep, ASCII, file and directory names from disjoint pools) each assigned one of {only-A, only-B, both-same, both-changed, both-changed-same-size, both with B empty, only-A empty, only-B empty}; sizes from {1,2,3,4,111..113,127..129,143..145,255,256,31999..32001} or random up to 8 KiB (400 KiB thorough); A, B and T = copy(A) materialised in a scratch directory; patch = ZiPatch::create(A, B) written outside the trees and applied to T with ZiPatch::apply. Oracle: A and B byte-identical before/after create; apply returns Ok; T's files = B's non-empty files with B's bytes (a path whose B version is empty may be absent or empty but must not keep A's bytes); nothing else remains. Non-trivial: at least one only-A, one only-B and one changed file; distinct by hash of the case.",
         assumptions: &["no path is a file in one tree and a directory in the other", "an empty B-side file may be absent or empty in the result (create documents skipping empty files)"],
         pre: None,
+        post: None,
         parts: vec![Box::new(Part { name: "tree-pairs", driver: Driver::Gen(strategy, 1_000, 10_000), prop, exhaustive: false })],
     }
 }
